@@ -130,14 +130,18 @@ fn satisfier(after: u64, f: impl FnOnce() + Send + 'static) -> Actor {
     })
 }
 
-/// take an early event without blocking (`try` returns true once it is there)
-fn take_early(who: &str, mut try_take: impl FnMut() -> bool) {
+/// take an early event without blocking (`try` returns true once it is there): poll quickly at
+/// first (the point is to take the value while its producer is still inside send / post), then
+/// with virtual naps - the producer may be stalled, or starved by an unfair strategy as long as
+/// we spin. No bound of our own: a producer that never delivers shows up as a hung verdict
+fn take_early(_who: &str, mut try_take: impl FnMut() -> bool) {
     let mut spins = 0u32;
     while !try_take() {
-        rt::relax();
         spins += 1;
-        if spins > 20_000 {
-            violation(&format!("{}: the early event never arrived", who));
+        if spins < 64 {
+            rt::relax();
+        } else {
+            rt::nap(20_000);
         }
     }
 }
